@@ -193,6 +193,19 @@ class Enum(object):
         self.budget = {"quick": budget_quick, "thorough": budget_thorough}
 
 
+class Custom(object):
+    """Campaign that drives its own generation (e.g. a Hypothesis RuleBasedStateMachine).
+    run(ctx, tier, seedval, n) generates and checks; check(case, ctx) replays one recorded case."""
+    kind = "custom"
+
+    def __init__(self, name, run, check, quick, thorough, budget_quick=45, budget_thorough=900):
+        self.name = name
+        self.run = run
+        self.check = check
+        self.examples = {"quick": quick, "thorough": thorough}
+        self.budget = {"quick": budget_quick, "thorough": budget_thorough}
+
+
 def repo_frame_key(exc):
     """type@module.function of the innermost traceback frame that lies in the repository under
     test; None when no frame of the repository is on the stack (harness error)."""
@@ -285,6 +298,10 @@ def _task(args):
         if camp.kind == "hyp":
             n = int(math.ceil(camp.examples[tier] * SCALE / float(nshards)))
             run_hyp(camp, ctx, mod.ID, n, shard_seed(seed, shard, camp_idx), camp.budget[tier])
+        elif camp.kind == "custom":
+            n = int(math.ceil(camp.examples[tier] * SCALE / float(nshards)))
+            with contextlib.redirect_stdout(_SINK):
+                camp.run(ctx, tier, shard_seed(seed, shard, camp_idx), n, time.time() + camp.budget[tier])
         else:
             run_enum(camp, ctx, mod.ID, camp.budget[tier])
         out = ctx.summary()
